@@ -35,6 +35,18 @@ FIELDS = {
 }
 
 
+# number of members of a set of hyperedges that pass the order filter: a specification function defined by its fold axioms
+CNT = z3.Function("count_sel", z3.ArraySort(T.TupS, T.B), T.I, T.B, T.I)
+_cs, _cx, _co, _cu = z3.Const("_cs", z3.ArraySort(T.TupS, T.B)), z3.Const("_cx", T.TupS), z3.Int("_co"), z3.Bool("_cu")
+TH.EXTRA.update({
+    "count_sel_empty (definition)": z3.ForAll([_co, _cu], CNT(z3.K(T.TupS, z3.BoolVal(False)), _co, _cu) == 0,
+                                              patterns=[CNT(z3.K(T.TupS, z3.BoolVal(False)), _co, _cu)]),
+    "count_sel_step (definition)": z3.ForAll([_cs, _cx, _co, _cu], z3.Implies(z3.Not(_cs[_cx]),
+        CNT(z3.Store(_cs, _cx, True), _co, _cu) == CNT(_cs, _co, _cu) +
+        z3.If(z3.If(_cu, TH.tlen(_cx) - 1 <= _co, TH.tlen(_cx) - 1 == _co), 1, 0)), patterns=[CNT(z3.Store(_cs, _cx, True), _co, _cu)]),
+})
+
+
 def _f(h):
     F = h.fields
     return (F["_edge_list"], F["_reverse_edge_list"], F["_weights"], F["_edge_metadata"], F["_adj"],
@@ -119,6 +131,8 @@ VIEWS = {
     "INC": lambda eng, p, h, n, k: T.sv_int(h.fields["_adj"].val[n.t][h.fields["_edge_list"].val[k.t]]),
     "ID": lambda eng, p, h, k: T.sv_int(h.fields["_edge_list"].val[k.t]),
     "KLEN": lambda eng, p, h, k: T.sv_int(TH.tlen(k.t)),
+    # count_sel(h, S, o, up_to): how many hyperedges of the set S have order == o (<= o when up_to)
+    "count_sel": lambda eng, p, h, S, o, u: T.sv_int(CNT(S.t, eng.coerce(o, T.INT).t, eng.truth(u, p))),
 }
 
 LAYOUT = Layout(CLS, FIELDS, aliases={"Key": "Tup"}, views=VIEWS,
@@ -409,8 +423,27 @@ CONTRACTS = [
       ensures={"wf": "wf(self)", "V": "all(n not in V(self) for n in Node)", "E": "all(k not in E(self) for k in Tuple)",
                "weighted": "weighted(self) == weighted(old(self))"}),
     C("num_nodes", params={}, result="Int", pure=True, ensures={"result": "result == card(V(self))"}),
-    C("num_edges", params={"order": "None", "size": "None", "up_to": "Bool"}, fixed={"order": None, "size": None},
-      result="Int", pure=True, ensures={"result": "result == card(E(self))"}),
+    C("num_edges", params={"order": "Opt[Int]", "size": "Opt[Int]", "up_to": "Bool"}, result="Int", pure=True, locals={"s": "Int"},
+      requires={"wf": "wf(self)"},
+      raises={"ValueError": "order is not None and size is not None"},
+      ensures={"all": "implies(order is None and size is None, result == card(E(self)))",
+               "by_order": "implies(order is not None, result == count_sel(self, E(self), order, up_to))",
+               "by_size": "implies(size is not None, result == count_sel(self, E(self), size - 1, up_to))"},
+      invariants={0: {"s": "s == count_sel(self, _done0, order, False)"},
+                  1: {"s": "s == count_sel(self, _done1, order, True)"}}),
+    C("is_uniform", params={}, result="Bool", pure=True, locals={"sz": "Opt[Int]", "uniform": "Bool"},
+      requires={"wf": "wf(self)"},
+      ensures={"result": "result == all(len(k1) == len(k2) for k1 in E(self) for k2 in E(self))"},
+      invariants={0: {"uniform": "uniform",
+                      "none": "(sz is None) == all(k not in _done0 for k in Tuple)",
+                      "same": "implies(sz is not None, all(len(k) == sz for k in _done0))",
+                      "witness": "implies(sz is not None, any(len(k) == sz for k in _done0))"}}),
+    C("max_size", params={}, result="Int", pure=True,
+      raises={"ValueError": "card(E(self)) == 0"},
+      ensures={"bound": "all(len(k) <= result for k in E(self))", "attained": "any(len(k) == result for k in E(self))"}),
+    C("max_order", params={}, result="Int", pure=True,
+      raises={"ValueError": "card(E(self)) == 0"},
+      ensures={"bound": "all(len(k) - 1 <= result for k in E(self))", "attained": "any(len(k) - 1 == result for k in E(self))"}),
     Contract(f"{CLS}.get_weights@dict", FILE, [CLS, "get_weights"], self_cls=CLS, properties=["C01"],
       params={"order": "Opt[Int]", "size": "Opt[Int]", "up_to": "Bool", "asdict": "Bool"}, fixed={"asdict": True},
       result="Map[Tup,Real]", pure=True,
